@@ -354,6 +354,7 @@ theorem txMeths_fc_start (s : State) (env : Env) (h : env "self.timer_rx_fc" = s
          Except.ok ((env.set "self.timer_rx_fc.timeout" (pint s.cfg.tFc)).set "self.timer_rx_fc.start_time" (pint s.now))
        | _ => (Except.error (PErr.exc .AttributeError) : Except PErr Env)) = _
   rw [h]
+  rfl
 
 /-- the environment `_start_rx_fc_timer()` ends with -/
 def fcStartEnv (s : State) (env : Env) : Env :=
@@ -388,5 +389,276 @@ theorem p_start_rx_fc_timer_agrees (s : State) (ms : Int) (env : Env) (hE : Has 
   · intro k hk
     simp only [fcTimerKeys, List.mem_cons, List.not_mem_nil, or_false, not_or] at hk
     simp [fcStartEnv, set_get, hk]
+
+/-! ## C. the accessors `available`, `transmitting`, `is_tx_throttled` -/
+
+theorem txMeths_rx_empty (s : State) (env : Env) : (txMeths s).fn "self.rx_queue.empty" [] env = .ok (pbool s.rxQueue.isEmpty) := rfl
+theorem txMeths_tx_empty (s : State) (env : Env) : (txMeths s).fn "self.tx_queue.empty" [] env = .ok (pbool s.txQueue.isEmpty) := rfl
+
+/-- **`available()` = `State.available`** (`self.rx_queue.empty()` answering what the model's queue answers), every environment -/
+theorem available_agrees (s : State) (env : Env) :
+    runFn (txMeths s) env Src.TransportLayerLogic_available = .ok (pbool s.available, env) := by
+  simp [runFn, Src.TransportLayerLogic_available, execBlock, execStmt, eval, evalArgs,
+    evalBuiltin_none "self.rx_queue.empty" _ (by decide), txMeths_rx_empty, State.available]
+
+theorem pvEq_txStPV (a b : TxSt) : pvEq (txStPV a) (txStPV b) = decide (a = b) := by
+  cases a <;> cases b <;> rfl
+
+/-- **`transmitting()` = `State.transmitting`**: Python's `or` returns an operand; both are `bool`s here -/
+theorem transmitting_agrees (s : State) (env : Env) (hE : Has env (txAttrs s)) (hC : Has env txConsts) :
+    runFn (txMeths s) env Src.TransportLayerLogic_transmitting = .ok (pbool s.transmitting, env) := by
+  obtain ⟨hS, -⟩ := has_txAttrs hE
+  obtain ⟨hI, -⟩ := has_txConsts hC
+  cases hq : s.txQueue.isEmpty <;>
+  simp [runFn, Src.TransportLayerLogic_transmitting, execBlock, execStmt, eval, evalArgs,
+    evalBuiltin_none "self.tx_queue.empty" _ (by decide), txMeths_tx_empty, State.transmitting, hS, hI, hq, pvEq_txStPV]
+  all_goals cases s.txState <;> rfl
+
+/-- **`is_tx_throttled()` = `State.isTxThrottled`** -/
+theorem is_tx_throttled_agrees (s : State) (M : Meths) (env : Env) (hE : Has env (txAttrs s)) (hC : Has env txConsts) :
+    runFn M env Src.TransportLayerLogic_is_tx_throttled = .ok (pbool s.isTxThrottled, env) := by
+  obtain ⟨hS, -⟩ := has_txAttrs hE
+  obtain ⟨-, -, -, hSF, hFF⟩ := has_txConsts hC
+  simp [runFn, Src.TransportLayerLogic_is_tx_throttled, execBlock, execStmt, eval, evalArgs, hS, hSF, hFF, txStPV,
+    State.isTxThrottled, List.mapM_cons, List.mapM_nil]
+  cases s.txState <;> rfl
+
+/-! ## E. `FiniteByteGenerator.remaining_size / depleted / total_length` = `Req.remaining / depleted / size` -/
+
+/-- the attributes of a `FiniteByteGenerator` (the generator itself, `_gen`, is only touched by `consume`) -/
+def reqAttrs (r : Req) : List (String × PV) :=
+  [("self._size", pint r.size), ("self._consumed", pint r.consumed), ("self._depleted", pbool r.depletedFlag)]
+
+theorem has_reqAttrs {env : Env} {r : Req} (h : Has env (reqAttrs r)) :
+    env "self._size" = some (pint r.size) ∧ env "self._consumed" = some (pint r.consumed) ∧
+    env "self._depleted" = some (pbool r.depletedFlag) := by
+  simpa [Has, reqAttrs] using h
+
+/-- **`total_length()` = `Req.size`** -/
+theorem fbg_total_length_agrees (r : Req) (M : Meths) (env : Env) (hE : Has env (reqAttrs r)) :
+    runFn M env Src.FiniteByteGenerator_total_length = .ok (pint r.size, env) := by
+  obtain ⟨h1, -, -⟩ := has_reqAttrs hE
+  simp [runFn, Src.FiniteByteGenerator_total_length, execBlock, execStmt, eval, h1]
+
+/-- `remaining_size()`, exactly: Python's `int` subtraction (negative when more was consumed than declared) -/
+theorem fbg_remaining_size_int (r : Req) (M : Meths) (env : Env) (hE : Has env (reqAttrs r)) :
+    runFn M env Src.FiniteByteGenerator_remaining_size = .ok (pint ((r.size : Int) - r.consumed), env) := by
+  obtain ⟨h1, h2, -⟩ := has_reqAttrs hE
+  simp [runFn, Src.FiniteByteGenerator_remaining_size, execBlock, execStmt, eval, h1, h2]
+
+/-- **`remaining_size()` = `Req.remaining`** (the model's truncated `size - consumed`) as long as no more than the declared size was
+    consumed.  `consume` raises `BadGeneratorError` when `_consumed` gets past `_size` (and the layer then drops the request), but it
+    leaves the object in that state: the hypothesis cannot be dropped, see `fbg_remaining_size_needs_le`. -/
+theorem fbg_remaining_size_agrees (r : Req) (M : Meths) (env : Env) (hE : Has env (reqAttrs r)) (hle : r.consumed ≤ r.size) :
+    runFn M env Src.FiniteByteGenerator_remaining_size = .ok (pint r.remaining, env) := by
+  rw [fbg_remaining_size_int r M env hE]
+  have : (r.size : Int) - r.consumed = ((r.size - r.consumed : Nat) : Int) := by omega
+  rw [this]; rfl
+
+/-- declared size 2, 3 bytes consumed (a generator that yields more than it declared, after the `BadGeneratorError`):
+    Python says `-1`, the model `0` -/
+theorem fbg_remaining_size_needs_le :
+    ∃ r : Req, (∀ M env, Has env (reqAttrs r) → runFn M env Src.FiniteByteGenerator_remaining_size = .ok (pint (-1), env)) ∧
+      r.remaining = 0 :=
+  ⟨{ id := 0, size := 2, src := [], consumed := 3 }, fun M env h => fbg_remaining_size_int _ M env h, rfl⟩
+
+/-- `self.remaining_size()` resolved by interpreting its source on the same object -/
+def fbgMeths : Meths where
+  fn := fun name args env =>
+    match name, args with
+    | "self.remaining_size", [] => retM noMeths env Src.FiniteByteGenerator_remaining_size
+    | n, _ => .error (.unsupported ("call " ++ n))
+  proc := fun n _ _ => .error (.unsupported ("call " ++ n))
+
+theorem fbgMeths_remaining (r : Req) (env : Env) (hE : Has env (reqAttrs r)) :
+    fbgMeths.fn "self.remaining_size" [] env = .ok (pint ((r.size : Int) - r.consumed)) := by
+  show retM noMeths env Src.FiniteByteGenerator_remaining_size = _
+  simp [retM, fbg_remaining_size_int r noMeths env hE]
+
+/-- **`depleted()` = `Req.depleted`**, for ALL requests (no hypothesis: `size - consumed <= 0` on `int`s is `size ≤ consumed`),
+    the call `self.remaining_size()` being the interpreted source -/
+theorem fbg_depleted_agrees (r : Req) (env : Env) (hE : Has env (reqAttrs r)) :
+    runFn fbgMeths env Src.FiniteByteGenerator_depleted = .ok (pbool r.depleted, env) := by
+  obtain ⟨-, -, h3⟩ := has_reqAttrs hE
+  have e : ((r.size : Int) - r.consumed ≤ 0) ↔ r.size ≤ r.consumed := by omega
+  by_cases hd : r.size ≤ r.consumed <;>
+  simp [runFn, Src.FiniteByteGenerator_depleted, execBlock, execStmt, eval, evalArgs,
+    evalBuiltin_none "self.remaining_size" _ (by decide), fbgMeths_remaining r env hE, evalCmp_le_pint, e, hd, h3, Req.depleted]
+
+example : ∃ r env, Has env (reqAttrs r) ∧ r.consumed ≤ r.size :=
+  ⟨{ id := 0, size := 2, src := [] }, envOf (reqAttrs { id := 0, size := 2, src := [] }), by
+    intro kv h
+    simp only [reqAttrs, List.mem_cons, List.not_mem_nil, or_false] at h
+    rcases h with rfl | rfl | rfl <;> rfl, by decide⟩
+
+/-! ## G. the public wrappers `stop_sending()` / `stop_receiving()`
+
+  Model: `TransportLayerLogic.stop_sending()` is `State.stopSending s false`, `stop_receiving()` is `State.stopReceiving s`
+  (what `Threaded.stopSending` / `Threaded.stopReceiving` apply to the core when the layer is not started). -/
+
+/-- A call of another method of `self` with one parameter, as a statement: the callee's source runs on the same attributes with
+    its parameter bound; the binding disappears on return. -/
+def callWith (M : Meths) (body : PBlock) (param : String) (v : PV) (env : Env) : Except PErr Env :=
+  (envM M (env.set param v) body).map (fun env' k => if k = param then env k else env' k)
+
+/-- `stop_sending()`, whatever `_stop_sending` is -/
+theorem stop_sending_calls (M : Meths) (env : Env) :
+    runFn M env Src.TransportLayerLogic_stop_sending =
+      (M.proc "self._stop_sending#success" [pbool false] env).map (fun env' => (pnone, env')) := by
+  cases h : M.proc "self._stop_sending#success" [pbool false] env <;>
+  simp [runFn, Src.TransportLayerLogic_stop_sending, execBlock, execStmt, eval, evalArgs,
+    evalBuiltin_none "self._stop_sending#success" _ (by decide), h]
+
+/-- `stop_receiving()`, whatever `_stop_receiving` is -/
+theorem stop_receiving_calls (M : Meths) (env : Env) :
+    runFn M env Src.TransportLayerLogic_stop_receiving =
+      (M.proc "self._stop_receiving" [] env).map (fun env' => (pnone, env')) := by
+  cases h : M.proc "self._stop_receiving" [] env <;>
+  simp [runFn, Src.TransportLayerLogic_stop_receiving, execBlock, execStmt, evalArgs,
+    evalBuiltin_none "self._stop_receiving" _ (by decide), h]
+
+/-- `self._stop_sending(success=v)` resolved by INTERPRETING the source of `_stop_sending` (primitives: `txMeths s`) -/
+def pubMeths (s : State) : Meths where
+  fn := (txMeths s).fn
+  proc := fun name args env =>
+    match name, args with
+    | "self._stop_sending#success", [v] => callWith (txMeths s) Src.TransportLayerLogic_p_stop_sending "success" v env
+    | n, _ => .error (.unsupported ("call " ++ n))
+
+/-- **`stop_sending()` = `State.stopSending s false`**, for all states: composition of the two sources -/
+theorem stop_sending_agrees (s : State) (env : Env) (hE : Has env (txAttrs s)) (hC : Has env txConsts) :
+    ∃ env', runFn (pubMeths s) env Src.TransportLayerLogic_stop_sending = .ok (pnone, env') ∧
+      Has env' (txAttrs (s.stopSending false)) ∧ ∀ k, k ∉ txKeys → env' k = env k := by
+  have hne : ∀ k ∈ txKeys ++ txConsts.map (·.1), k ≠ "success" := by decide
+  have hE' : Has (env.set "success" (pbool false)) (txAttrs s) := by
+    intro kv hkv
+    have hk : kv.1 ≠ "success" := hne _ (List.mem_append_left _ (by rw [← txAttrs_keys s]; exact List.mem_map_of_mem hkv))
+    simp [set_get, hk, hE kv hkv]
+  have hC' : Has (env.set "success" (pbool false)) txConsts := by
+    intro kv hkv
+    have hk : kv.1 ≠ "success" := hne _ (List.mem_append_right _ (List.mem_map_of_mem hkv))
+    simp [set_get, hk, hC kv hkv]
+  have hrun := p_stop_sending_run s false _ hE' hC' (by simp [set_get])
+  have hp : (pubMeths s).proc "self._stop_sending#success" [pbool false] env =
+      .ok (fun k => if k = "success" then env k else stopEnv s false (env.set "success" (pbool false)) k) := by
+    show callWith (txMeths s) Src.TransportLayerLogic_p_stop_sending "success" (pbool false) env = _
+    simp [callWith, envM, hrun]
+  refine ⟨_, by rw [stop_sending_calls, hp]; rfl, ?_, ?_⟩
+  · intro kv hkv
+    have hk : kv.1 ≠ "success" := hne _ (List.mem_append_left _ (by
+      rw [← txAttrs_keys (s.stopSending false)]; exact List.mem_map_of_mem hkv))
+    simp only [hk, if_false]
+    exact stopEnv_has s false _ hE' kv hkv
+  · intro k hk
+    by_cases hs : k = "success"
+    · simp [hs]
+    · simp only [hs, if_false]
+      rw [stopEnv_frame s false _ k hk]
+      simp [set_get, hs]
+
+/-! `stop_receiving()`: the callee `_stop_receiving` and ITS callees `_empty_rx_buffer`, `_stop_sending_flow_control` are all resolved by
+    interpreting their sources; the primitives are `bytearray()` (an empty buffer) and `self.timer_rx_cf.stop()` (`Timer.stop` on the
+    sub-object, `timer_stop_agrees`). -/
+
+def pubRxStPV : RxSt → PV
+  | .idle => .sc (.enum "RxState" "IDLE")
+  | .waitCf => .sc (.enum "RxState" "WAIT_CF")
+
+/-- the attributes `_stop_receiving` touches -/
+def pubRxAttrs (s : State) : List (String × PV) :=
+  [("self.actual_rxdl", optPV s.actualRxdl),
+   ("self.rx_state", pubRxStPV s.rxState),
+   ("self.rx_buffer", .bytes s.rxBuf),
+   ("self.pending_flow_control_tx", pbool s.pendingFc),
+   ("self.last_flow_control_frame", objPV "fc" s.lastFc.isSome),
+   ("self.timer_rx_cf.start_time", optPV s.timerCf.start),
+   ("self.timer_rx_cf.timeout", pint s.timerCf.timeout)]
+
+def pubRxKeys : List String :=
+  ["self.actual_rxdl", "self.rx_state", "self.rx_buffer", "self.pending_flow_control_tx", "self.last_flow_control_frame",
+   "self.timer_rx_cf.start_time", "self.timer_rx_cf.timeout"]
+
+theorem pubRxAttrs_keys (s : State) : (pubRxAttrs s).map (·.1) = pubRxKeys := rfl
+
+def pubRxConsts : List (String × PV) :=
+  [("self.RxState.IDLE", pubRxStPV .idle), ("self.RxState.WAIT_CF", pubRxStPV .waitCf)]
+
+theorem pubRxConsts_dumped : ∀ kv ∈ pubRxConsts, kv ∈ Src.consts := by decide
+
+/-- the primitives -/
+def pubRxPrims : Meths where
+  fn := fun name args _ =>
+    match name, args with
+    | "bytearray", [] => .ok (.bytes [])
+    | n, _ => .error (.unsupported ("call " ++ n))
+  proc := fun name args env =>
+    match name, args with
+    | "self.timer_rx_cf.stop", [] => .ok (env.set "self.timer_rx_cf.start_time" pnone)
+    | n, _ => .error (.unsupported ("call " ++ n))
+
+/-- the callees of `_stop_receiving`: interpreted sources -/
+def pubRxMeths1 : Meths where
+  fn := pubRxPrims.fn
+  proc := fun name args env =>
+    match name, args with
+    | "self._empty_rx_buffer", [] => envM pubRxPrims env Src.TransportLayerLogic_p_empty_rx_buffer
+    | "self._stop_sending_flow_control", [] => envM pubRxPrims env Src.TransportLayerLogic_p_stop_sending_flow_control
+    | n, a => pubRxPrims.proc n a env
+
+/-- the callee of `stop_receiving`: interpreted source -/
+def pubRxMeths : Meths where
+  fn := pubRxPrims.fn
+  proc := fun name args env =>
+    match name, args with
+    | "self._stop_receiving", [] => envM pubRxMeths1 env Src.TransportLayerLogic_p_stop_receiving
+    | n, _ => .error (.unsupported ("call " ++ n))
+
+theorem p_empty_rx_buffer_run (env : Env) :
+    envM pubRxPrims env Src.TransportLayerLogic_p_empty_rx_buffer = .ok (env.set "self.rx_buffer" (.bytes [])) := by
+  have hf : ∀ env, pubRxPrims.fn "bytearray" [] env = .ok (.bytes []) := fun _ => rfl
+  simp [envM, runFn, Src.TransportLayerLogic_p_empty_rx_buffer, execBlock, execStmt, eval, evalArgs,
+    evalBuiltin_none "bytearray" _ (by decide), hf]
+
+theorem p_stop_sending_flow_control_run (M : Meths) (env : Env) :
+    envM M env Src.TransportLayerLogic_p_stop_sending_flow_control =
+      .ok ((env.set "self.pending_flow_control_tx" (pbool false)).set "self.last_flow_control_frame" pnone) := by
+  simp [envM, runFn, Src.TransportLayerLogic_p_stop_sending_flow_control, execBlock, execStmt, eval]
+
+/-- the environment `_stop_receiving()` ends with -/
+def pubRxStopEnv (env : Env) : Env :=
+  ((((((env.set "self.actual_rxdl" pnone).set "self.rx_state" (pubRxStPV .idle)).set "self.rx_buffer" (.bytes [])).set
+    "self.pending_flow_control_tx" (pbool false)).set "self.last_flow_control_frame" pnone).set "self.timer_rx_cf.start_time" pnone)
+
+theorem p_stop_receiving_run (env : Env) (hI : env "self.RxState.IDLE" = some (pubRxStPV .idle)) :
+    envM pubRxMeths1 env Src.TransportLayerLogic_p_stop_receiving = .ok (pubRxStopEnv env) := by
+  have e : execBlock pubRxMeths1 env (drop Src.TransportLayerLogic_p_stop_receiving 0) = .ok (.next (pubRxStopEnv env)) := by
+    rw [step_next rfl (assign_none _ _ "self.actual_rxdl")]
+    rw [step_next rfl (assign_var _ _ "self.rx_state" "self.RxState.IDLE" (pubRxStPV .idle) (by simp [set_get, hI]))]
+    have p1 : ∀ env, pubRxMeths1.proc "self._empty_rx_buffer" [] env = .ok (env.set "self.rx_buffer" (.bytes [])) :=
+      fun env => p_empty_rx_buffer_run env
+    have p2 : ∀ env, pubRxMeths1.proc "self._stop_sending_flow_control" [] env =
+        .ok ((env.set "self.pending_flow_control_tx" (pbool false)).set "self.last_flow_control_frame" pnone) :=
+      fun env => p_stop_sending_flow_control_run pubRxPrims env
+    have p3 : ∀ env, pubRxMeths1.proc "self.timer_rx_cf.stop" [] env = .ok (env.set "self.timer_rx_cf.start_time" pnone) :=
+      fun _ => rfl
+    rw [step_next rfl (proc0 _ _ _ "self._empty_rx_buffer" (by decide) (p1 _))]
+    rw [step_next rfl (proc0 _ _ _ "self._stop_sending_flow_control" (by decide) (p2 _))]
+    rw [step_next rfl (proc0 _ _ _ "self.timer_rx_cf.stop" (by decide) (p3 _))]
+    rfl
+  have e' : execBlock pubRxMeths1 env Src.TransportLayerLogic_p_stop_receiving = .ok (.next (pubRxStopEnv env)) := e
+  simp [envM, runFn, e']
+
+/-- **`stop_receiving()` = `State.stopReceiving`**, for all states: composition of the four sources -/
+theorem stop_receiving_agrees (s : State) (env : Env) (hE : Has env (pubRxAttrs s)) (hC : Has env pubRxConsts) :
+    ∃ env', runFn pubRxMeths env Src.TransportLayerLogic_stop_receiving = .ok (pnone, env') ∧
+      Has env' (pubRxAttrs s.stopReceiving) ∧ ∀ k, k ∉ pubRxKeys → env' k = env k := by
+  have hI : env "self.RxState.IDLE" = some (pubRxStPV .idle) := hC ("self.RxState.IDLE", pubRxStPV .idle) (by simp [pubRxConsts])
+  have hT : env "self.timer_rx_cf.timeout" = some (pint s.timerCf.timeout) := hE (_, _) (by simp [pubRxAttrs])
+  have hp : pubRxMeths.proc "self._stop_receiving" [] env = .ok (pubRxStopEnv env) := p_stop_receiving_run env hI
+  refine ⟨pubRxStopEnv env, by rw [stop_receiving_calls, hp]; rfl, ?_, ?_⟩
+  · simp [Has, pubRxAttrs, pubRxStopEnv, State.stopReceiving, Timer.stop, set_get, optPV, objPV, hT, pubRxStPV]
+  · intro k hk
+    simp only [pubRxKeys, List.mem_cons, List.not_mem_nil, or_false, not_or] at hk
+    simp [pubRxStopEnv, set_get, hk]
 
 end Isotp.PyAgree
